@@ -35,7 +35,7 @@ SPEC = {
     "gens": ["FmtTables", "ParseTables"],
     "lean_modules": ["RsslVerif.Thm.C09"],
     "level_note": "roundtrip_expr_partial: WF excludes LitOk-failing literals, assignment as middle operand of a conditional "
-                  "(negation proved: ternary_middle_assignment_breaks) and call nodes; casts, sizeof, template "
+                  "(negation proved: ternary_middle_assignment_breaks); casts, sizeof, template "
                   "arguments, braced init, statements and declarators are reached by the correspondence run only",
     "theorems": [T + n for n in [
         "binToks_lexes", "unTok_lexes", "tables_agree", "assoc_agrees", "ternary_level", "unary_tables_agree",
@@ -48,10 +48,10 @@ SPEC = {
     "level_text": "Proof (expression level): the formatter model (format_subexpression with the generated precedence / "
                   "associativity / side tables) and the parser model (expr_p1..p15 with the generated parse_op arms) are proved "
                   "inverse by structural induction for every tree over literals, identifiers, all unary and binary operators, "
-                  "the conditional, member access and subscripts, at every nesting depth and in front of every expression "
+                  "the conditional, member access, subscripts and calls, at every nesting depth and in front of every expression "
                   "terminator; the table-level obligations (precedence <-> level, associativity, spelling <-> tokens, operator "
                   "glue) are decided over the regenerated tables; the full statement is refuted with a witness where it is "
-                  "false (assignment in the middle of a conditional). Calls, casts, sizeof, template arguments, literals' text "
+                  "false (assignment in the middle of a conditional). Casts, sizeof, template arguments, literals' text "
                   "and statements/declarators are covered by the correspondence run only.",
     "rule": "requests = (context, expression tree) built directly as rssl_ast values, printed by the real "
             "rssl_formatter::format (HLSL) inside `return e;` / `e;` / `int v = e;` / `g(e)` / `g[e]`, re-read by the real "
